@@ -413,6 +413,13 @@ fn dechunk(mut b: &[u8]) -> Option<Vec<u8>> {
     }
 }
 
+/// Verification hook: the private chunked-transfer decoder, callable on
+/// arbitrary bytes by the external harness.
+#[cfg(feature = "verif-hooks")]
+pub fn verif_dechunk(b: &[u8]) -> Option<Vec<u8>> {
+    dechunk(b)
+}
+
 #[cfg(test)]
 mod tests {
     use super::*;
